@@ -339,7 +339,30 @@ func oversizeStrings(rt *rapid.T) ([]byte, string) {
 // than the reader's window: whatever the parser does with it, the cost must stay proportional to the packet.
 func xmpLongToken(rt *rapid.T) ([]byte, string) {
 	n := rapid.SampledFrom([]int{2000, 20000, 100000, 300000, 1000000}).Draw(rt, "toklen")
-	where := rapid.SampledFrom([]string{"element-text", "attribute-value", "white-space", "tag-name", "array-item", "many-malformed-values"}).Draw(rt, "where")
+	where := rapid.SampledFrom([]string{"element-text", "attribute-value", "white-space", "tag-name", "array-item", "many-malformed-values", "many-tiny-items", "many-separators"}).Draw(rt, "where")
+	wrap := func(inner string) []byte {
+		return []byte("<x:xmpmeta xmlns:x=\"adobe:ns:meta/\"><rdf:RDF xmlns:rdf=\"http://www.w3.org/1999/02/22-rdf-syntax-ns#\"><rdf:Description rdf:about=\"\">" + inner + "</rdf:Description></rdf:RDF></x:xmpmeta>")
+	}
+	if where == "many-tiny-items" {
+		// a list with very many items of a few bytes each, under a list property and under properties whose typed parser
+		// rejects every item: the cost of an item (a list entry, a rejection) is paid per 4..17 bytes of input
+		prop := rapid.SampledFrom([]string{"xmpMM:DocumentID", "xmpMM:InstanceID", "dc:subject", "dc:creator", "dc:title", "xmp:CreateDate", "exif:ISOSpeedRatings", "exif:GPSLatitude"}).Draw(rt, "listprop")
+		item := rapid.SampledFrom([]string{"<rdf:li>x</rdf:li>", "<rdf:li>x", "<:>x", "<:b>x", "<a:b>"}).Draw(rt, "item")
+		k := rapid.SampledFrom([]int{1000, 100000, 300000}).Draw(rt, "nitems")
+		return wrap("<" + prop + "><rdf:Bag>" + strings.Repeat(item, k) + "</rdf:Bag></" + prop + ">"), fmt.Sprintf("%d x %s under %s", k, item, prop)
+	}
+	if where == "many-separators" {
+		// values made of the separator characters the typed parsers split at
+		sep := rapid.SampledFrom([]string{",", "/", ":", "-", ".", "T", " "}).Draw(rt, "sep")
+		prop := rapid.SampledFrom([]string{"exif:GPSLatitude", "exif:GPSLongitude", "exif:FNumber", "exif:ExposureBiasValue", "xmp:CreateDate", "xmpMM:DocumentID", "exif:GPSAltitude"}).Draw(rt, "sepprop")
+		run, k := rapid.SampledFrom([]int{100, 1000, 1400}).Draw(rt, "seprun"), rapid.SampledFrom([]int{100, 2000}).Draw(rt, "sepk")
+		val := strings.Repeat(sep, run) + rapid.SampledFrom([]string{"N", "", "1"}).Draw(rt, "septail")
+		if rapid.Bool().Draw(rt, "sepelem") {
+			return wrap(strings.Repeat("<"+prop+">"+val+"</"+prop+">", k)), fmt.Sprintf("%d elements %s of %d x %q", k, prop, run, sep)
+		}
+		body := "<x:xmpmeta xmlns:x=\"adobe:ns:meta/\"><rdf:RDF xmlns:rdf=\"http://www.w3.org/1999/02/22-rdf-syntax-ns#\"><rdf:Description rdf:about=\"\" " + strings.Repeat(prop+"=\""+val+"\" ", k) + "></rdf:Description></rdf:RDF></x:xmpmeta>"
+		return []byte(body), fmt.Sprintf("%d attributes %s of %d x %q", k, prop, run, sep)
+	}
 	if where == "many-malformed-values" {
 		// very many short attributes whose values the typed parsers reject: whatever a rejection costs, it is paid per attribute
 		attr := rapid.SampledFrom([]string{`xmpMM:InstanceID="x"`, `xmpMM:DocumentID="0123456789"`, `xmp:CreateDate="x"`, `exif:FNumber="1/"`, `xmp:Rating="-"`, `exif:GPSLatitude="1,2,3,4N"`}).Draw(rt, "badattr")
